@@ -257,10 +257,19 @@ def eval_case(case: dict) -> dict:
 def _worker(arg):
     seed, stream = arg
     rng = random.Random(f'{PROP}:{seed}:{stream}')
-    gen, ent, enc, info = cfggen.gen_shell_case(rng)
+    # every eighth model and configuration is of big size: ten and more ports and events, long
+    # identifiers, file name, prefix, one-line copyright notice, creator text without blanks
+    gen, ent, enc, info = cfggen.gen_shell_case(rng, big=stream % 8 == 5)
     doc = M.to_json(gen.model)
-    agg = {'violations': [], 'counts': {}, 'cases': []}
+    agg = {'violations': [], 'counts': {'valid_builds_of_big_size': int(bool(enc.get('big')))},
+           'cases': []}
     cases = [{'doc': doc, 'cfg': enc, 'expect': 'success', 'fault': 'none'}]
+    if stream % 4 == 1:
+        # the texts alone, on a model of usual size
+        texts = dict(enc)
+        cfggen.enlarge(rng, texts)
+        texts['filename'], texts['prefix'] = enc['filename'], enc['prefix']
+        cases.append({'doc': doc, 'cfg': texts, 'expect': 'success', 'fault': 'none'})
     for name, faulty in cfg_faults(rng, gen, ent, enc, info):
         cases.append({'doc': doc, 'cfg': faulty, 'expect': 'error', 'fault': name})
     for name, model, cfg in model_faults(rng, gen, ent, enc, info):
@@ -349,7 +358,7 @@ def eval_deep(arg):
 def main(tier: str) -> int:
     run = common.Run(PROP, tier, level='fault_enumeration')
     n = 150 if tier == 'quick' else 15000
-    run.require('outcome_success', 'outcome_library', 'complete_file_sets', 'fault_unknown-encapsulee',
+    run.require('outcome_success', 'valid_builds_of_big_size', 'outcome_library', 'complete_file_sets', 'fault_unknown-encapsulee',
                 'fault_port-type-unresolvable', 'fault_port-type-ambiguous',
                 'fault_uncovered-port', 'fault_mc-unknown-claim-event')
     for _item, res in run.pmap(_worker, [(run.seed, i) for i in range(n)], chunksize=4,
